@@ -1023,6 +1023,8 @@ def gen_history(rng, family="mixed", nsteps=None, full=False, minimal=None):
         kw.update(shared_p=1.0)
     if family == "dirs":
         kw.update(dir_p=0.8)
+    if family == "lostblob":
+        kw.update(n=rng.randint(3, 5), dirs=False, split_p=0.0, shared_p=0.0, outless_p=0.0)
     ws = gen_ws(rng, **kw)
     if family == "dirs" and not any(any(o["dir"] for o in t_["outs"]) and any("*" in g for g in t_["globs"]) for t_ in ws["targets"].values()):
         for x in sorted(ws["targets"]):
@@ -1030,6 +1032,17 @@ def gen_history(rng, family="mixed", nsteps=None, full=False, minimal=None):
             if any("*" in g for g in xt["globs"]) and not xt.get("split"):
                 xt["outs"].append({"dir": True, "rel": "dist%s" % xt["name"][1:]})
                 break
+    if family == "lostblob":
+        # a chain e <- d <- x (all cached, file outputs): the blob of d's output will be lost
+        order = sorted(ws["targets"], key=lambda x: int(ws["targets"][x]["name"][1:]))
+        for a, b_ in zip(order, order[1:]):
+            if a not in rdeps(ws, b_):
+                ws["targets"][b_]["deps"].append(a)
+        for x in order:
+            xt = ws["targets"][x]
+            xt["nocache"] = False
+            if not any(not o["dir"] for o in xt["outs"]):
+                xt["outs"].append({"dir": False, "rel": "o%s.txt" % xt["name"][1:]})
     if family == "tool":
         # make sure some script target (input == bin_output, usually no-cache) has a dependant that reads the script
         order = sorted(ws["targets"], key=lambda x: int(ws["targets"][x]["name"][1:]))
@@ -1061,7 +1074,7 @@ def gen_history(rng, family="mixed", nsteps=None, full=False, minimal=None):
                 yt["outs"] = [{"dir": False, "rel": "o%s.txt" % yt["name"][1:]}]
             if x not in rdeps(ws, y):
                 yt["deps"].append(x)
-    hist = {"ws": ws, "algo": rng.choice(["xxh3", "sha256"]), "steps": [], "tags": [family]}
+    hist = {"ws": ws, "algo": "sha256" if family == "lostblob" else rng.choice(["xxh3", "sha256"]), "steps": [], "tags": [family]}
     cur = ws
     versions = [ws]
     minimal = family.startswith("minimal") if minimal is None else minimal
@@ -1088,6 +1101,27 @@ def gen_history(rng, family="mixed", nsteps=None, full=False, minimal=None):
         return hist
     for _ in range(n):
         r = rng.random()
+        if family == "lostblob":
+            order = sorted(cur["targets"], key=lambda x: int(cur["targets"][x]["name"][1:]))
+            mid = rng.choice(order[1:-1]) if len(order) > 2 else order[0]
+            mo = [o for o in cur["targets"][mid]["outs"] if not o["dir"]][0]
+            hist["steps"].append({"k": "drop", "path": out_path(cur["targets"][mid], mo)})
+            # the workspace copy goes too: with the file still in place and matching, the handler's local-digest short cut
+            # restores "from the workspace" and the lost blob is not noticed (not modelled: restore needs the blob)
+            if rng.random() < 0.7:
+                writes = [[pth, None] for pth in sorted(all_out_paths(cur))]
+                hist["steps"].append({"k": "edit", "ws": cur, "writes": writes, "what": "tamper: wipe all declared outputs"})
+            else:
+                hist["steps"].append({"k": "edit", "ws": cur, "writes": [[out_path(cur["targets"][mid], mo), None]],
+                                      "what": "tamper: delete %s" % out_path(cur["targets"][mid], mo)})
+            top = order[order.index(mid) + 1] if rng.random() < 0.7 else rng.choice(order[order.index(mid) + 1:])
+            e2 = copy.deepcopy(cur)
+            e2["targets"][top]["salt"] = "s%d" % rng.randint(300, 399)
+            hist["steps"].append({"k": "edit", "ws": e2, "writes": [], "what": "command of %s (downstream of the lost blob of %s)" % (top, mid)})
+            cur = e2
+            versions.append(cur)
+            build(["//..."] if rng.random() < 0.6 else [top])
+            continue
         if family == "checks" and r < 0.3:
             # the checked external condition is destroyed, the target runs and fails its check, the condition is
             # re-established from outside: the target must run again (nothing may have been cached by the failed run)
